@@ -214,7 +214,7 @@ func c02(w *core.World, r *core.Report) {
 	// ---- OWNER-READ
 	r.Rule("OWNER-READ", 1, "cache contract (sdcio/cache v0.0.35 buildIntendedStoreReadeKey: with Priority<=0 the Owner of a read is ignored): every read of Store_INTENDED whose Opts set Owner also sets Priority from a value that is not the constant 0. In ReadUpdatesOwner the priority comes from the keys index.")
 	for _, f := range w.RepoFns {
-		for _, c := range core.Calls(f) {
+		for _, c := range core.OwnCalls(f) {
 			if !core.CalleeIs(c, "cache.Client.Read", "cache.Client.ReadCh", "tree.TreeCacheClientImpl.Read", "tree.TreeCacheClient.Read") {
 				continue
 			}
